@@ -28,6 +28,7 @@ type Conn struct {
 }
 
 func runConn(h Conn) kit.Verdict {
+	watchBegin("streams-of-one-factory", h)
 	var cur *streamRun
 	f := newFactory(&cur)
 	n := len(h.Streams)
